@@ -16,6 +16,8 @@ mod engine_b;
 mod pools;
 mod transcript;
 mod hashorder;
+#[cfg(feature = "sr")]
+mod sr_quals;
 
 use common::Tier;
 
@@ -68,6 +70,15 @@ fn main() {
             std::process::exit(2);
         };
         std::process::exit(transcript::write_transcript(tier, &out, chunk.as_deref()));
+    }
+    if prop == "sr-quals" {
+        #[cfg(feature = "sr")]
+        std::process::exit(sr_quals::run(tier, out.as_deref()));
+        #[cfg(not(feature = "sr"))]
+        {
+            eprintln!("MACHINERY: sr-quals needs a build with the sr feature");
+            std::process::exit(2);
+        }
     }
     if prop == "hashorder" {
         #[cfg(purl_verif)]
